@@ -46,6 +46,7 @@ def plans(draw):
   balancer = draw(st.sampled_from(['default', 'default', 'heap'])) if mode == 'shared' else 'heap'
   period = draw(st.sampled_from([500, 1000, 2000]))
   phases = []
+  flaky = None
   t = 0
   down_first = draw(st.sampled_from([False, False, True])) if mode == 'shared' else False
   if down_first:
@@ -64,6 +65,10 @@ def plans(draw):
       kind = 'blackhole'
     phases.append([start, start + dur, kind])
     t = start + dur
+  if stack == 'thriftmux' and phases[-1][2] == 'reset' and nports == 1 and draw(st.booleans()):
+    # back, but the first connection that gets through is dropped again right after its handshake (0-3 turns of the
+    # client's event loop after the ping reply); after that the endpoint is stable
+    flaky = draw(st.integers(0, 3))
   stagger = draw(st.sampled_from([7000, 20000])) if mode == 'staggered' else 0
   stagger_order = draw(st.sampled_from(['asc', 'desc']))
   affected = None
@@ -83,12 +88,14 @@ def plans(draw):
   close_on_error = None
   if close_at is None and not affected and not close_on_connect and draw(st.booleans()):
     close_on_error = {'nth': draw(st.integers(1, 3))}
+  if flaky is not None:
+    close_at = close_on_connect = close_on_error = None      # the client stays open: recovery after the dropped connection is the point
   return {'close_on_error': close_on_error, 'affected': affected, 'stagger_ms': stagger, 'stagger_order': stagger_order, 'refuse_delay_ms': refuse_delay,
           'close_on_connect': close_on_connect,'seed': draw(st.integers(0, 2 ** 16)), 'stack': stack, 'balancer': balancer, 'resurrector': res,
           'ports': ports, 'period_ms': period, 'phases': phases, 'end_ms': end, 'close_at': close_at,
           'pool_max': draw(st.sampled_from([None, 1, 2])) if stack == 'thrift' else None,
           # two callers issue their calls at the same instants: the second needs a further pooled connection
-          'blackhole_s': blackhole_s,
+          'blackhole_s': blackhole_s, 'flaky_hops': flaky,
           'pairs': False}
 
 
@@ -131,6 +138,8 @@ def to_world(plan):
       elif kind == 'reset':
         tl.append([start, 'down'])
         tl.append([stop, 'up'])
+        if plan.get('flaky_hops') is not None and [start, stop - lag, kind] == plan['phases'][-1]:
+          tl.append([stop, ['flaky', plan['flaky_hops']]])
       elif kind == 'hang':
         tl.append([start, 'hang'])
         tl.append([stop, 'unhang'])
@@ -376,6 +385,13 @@ def execute(plan):
             begun[c2] = t_
           elif k2 in ('refused', 'connect_timeout') and c2 in begun and begun[c2] < R and t_ > R:
             late_fail = max(late_fail, t_)
+        if plan.get('flaky_hops') is not None and [start_ms, stop_ms, kind] == plan['phases'][-1]:
+          # the first connection after the outage is dropped right after its handshake: the endpoint counts as
+          # reachable for good from that moment
+          drops = [t_ for sq, t_, k2, c2, _ in net.log if k2 == 'peer_eof' and t_ >= R]
+          if drops:
+            late_fail = max(late_fail, drops[0])
+            flags.add('first_connection_after_the_outage_dropped_after_its_handshake')
         if late_fail > R:
           flags.add('connect_begun_while_down_failed_after_recovery')
         R_phase_end = R
